@@ -31,7 +31,85 @@ const H_SKIP: u64 = 0x736B_6970_5F5F;
 
 type B = Rc<RefCell<Backend>>;
 
+// ---------------------------------------------------------------- scripted backends for the health checker
+//
+// Addresses 10..=14 are real listening sockets of this process (ephemeral ports) whose behaviour towards a
+// probe is switched by the case; 15 is a port nobody listens on.
+const K_OK: u8 = 0; // 200
+const K_503: u8 = 1;
+const K_CLOSE: u8 = 2; // accepts, closes at once
+const K_HANG: u8 = 3; // accepts, never reads, never writes
+const K_SLOW: u8 = 4; // half a status line, then nothing
+const K_BIG: u8 = 5; // 5000 bytes without a line end
+
+struct Srv {
+    addr: SocketAddr,
+    kind: std::sync::Arc<std::sync::atomic::AtomicU8>,
+    parked: std::sync::Arc<std::sync::Mutex<Vec<std::net::TcpStream>>>,
+}
+
+fn servers() -> &'static Vec<Srv> {
+    static S: std::sync::OnceLock<Vec<Srv>> = std::sync::OnceLock::new();
+    S.get_or_init(|| {
+        (0..5)
+            .map(|_| {
+                use std::io::{Read, Write};
+                let l = std::net::TcpListener::bind("127.0.0.1:0").unwrap();
+                let addr = l.local_addr().unwrap();
+                let kind = std::sync::Arc::new(std::sync::atomic::AtomicU8::new(K_OK));
+                let parked = std::sync::Arc::new(std::sync::Mutex::new(vec![]));
+                let (k2, p2) = (kind.clone(), parked.clone());
+                std::thread::spawn(move || {
+                    for s in l.incoming().flatten() {
+                        let k = k2.load(std::sync::atomic::Ordering::SeqCst);
+                        let p3 = p2.clone();
+                        std::thread::spawn(move || {
+                            let mut s = s;
+                            match k {
+                                K_CLOSE => drop(s),
+                                K_HANG => p3.lock().unwrap().push(s),
+                                K_SLOW => {
+                                    let _ = s.write_all(b"HTTP/1.1 2");
+                                    p3.lock().unwrap().push(s);
+                                }
+                                _ => {
+                                    let _ = s.set_read_timeout(Some(Duration::from_secs(3)));
+                                    let mut acc = vec![];
+                                    let mut buf = [0u8; 512];
+                                    while !acc.windows(4).any(|w| w == b"\r\n\r\n") {
+                                        match s.read(&mut buf) {
+                                            Ok(0) | Err(_) => return,
+                                            Ok(n) => acc.extend_from_slice(&buf[..n]),
+                                        }
+                                    }
+                                    let _ = match k {
+                                        K_503 => s.write_all(b"HTTP/1.1 503 Service Unavailable\r\nContent-Length: 0\r\nConnection: close\r\n\r\n"),
+                                        K_BIG => s.write_all(&[b'x'; 5000]),
+                                        _ => s.write_all(b"HTTP/1.1 200 OK\r\nContent-Length: 0\r\nConnection: close\r\n\r\n"),
+                                    };
+                                }
+                            }
+                        });
+                    }
+                });
+                Srv { addr, kind, parked }
+            })
+            .collect()
+    })
+}
+
+fn refusing_addr() -> SocketAddr {
+    static A: std::sync::OnceLock<SocketAddr> = std::sync::OnceLock::new();
+    *A.get_or_init(|| std::net::TcpListener::bind("127.0.0.1:0").unwrap().local_addr().unwrap())
+}
+
 fn addr_of(i: i128) -> SocketAddr {
+    if (10..=14).contains(&i) {
+        return servers()[(i - 10) as usize].addr;
+    }
+    if i == 15 {
+        return refusing_addr();
+    }
     // 0..=5: loopback ports nobody listens on (a non-blocking connect answers EINPROGRESS = Ok);
     // 6: an IPv6 loopback address; 7: the IPv4 broadcast address (tcp connect refuses synchronously)
     match i {
@@ -65,7 +143,18 @@ enum Kind {
     Maglev,
 }
 
+/// the real health checker, a mio poll to feed it, and the driver's own notes about the probes in flight
+struct Hc {
+    checker: sozu_lib::health_check::HealthChecker,
+    poll: mio::Poll,
+    /// (cluster, backend_id, address) -> (kind of the server when the probe was first seen, model time then, timeout)
+    seen: std::collections::HashMap<(String, String, SocketAddr), (u8, u64, u64)>,
+    now: u64,
+    timeout: [u64; 2],
+}
+
 struct St {
+    hc: Option<Hc>,
     map: BackendMap,
     handles: Vec<B>,
     kind: [Kind; 2],
@@ -224,7 +313,7 @@ fn after_fail(b: &mut Backend, before: (usize, usize, u64), w: u64, out: &mut Ou
 }
 
 fn addr_index(a: &SocketAddr) -> i128 {
-    for i in 0..8 {
+    for i in (0..8).chain(10..16) {
         if addr_of(i) == *a {
             return i;
         }
@@ -252,7 +341,13 @@ fn score_bits(key: u64, a: i128, w: Option<i32>) -> u64 {
 }
 
 fn run(case: &Case, out: &mut Out) {
-    let mut st = St { map: BackendMap::new(), handles: vec![], kind: [Kind::Random; 2], shadow: vec![] };
+    let mut st = St { hc: None, map: BackendMap::new(), handles: vec![], kind: [Kind::Random; 2], shadow: vec![] };
+    if case.ops.iter().any(|o| o.name == "hc_config") {
+        for sv in servers() {
+            sv.kind.store(K_OK, std::sync::atomic::Ordering::SeqCst);
+            sv.parked.lock().unwrap().clear();
+        }
+    }
     for op in &case.ops {
         let a = &op.args;
         match op.name.as_str() {
@@ -405,7 +500,131 @@ fn run(case: &Case, out: &mut Out) {
                 for h in &st.handles {
                     policy_age(&mut h.borrow_mut(), d * SCALE);
                 }
+                if let Some(hc) = st.hc.as_mut() {
+                    hc.checker.verif_age(Duration::from_secs(d * SCALE));
+                    hc.now += d;
+                }
                 out.obs(&[]);
+            }
+            // ---------------------------------------------------------------- health checker
+            "server" => {
+                // addr(10..=14) kind : how that backend treats the probes it accepts from now on
+                let sv = &servers()[(a[0].n() - 10) as usize];
+                sv.kind.store(a[1].n() as u8, std::sync::atomic::Ordering::SeqCst);
+                out.obs(&[]);
+            }
+            "hc_config" => {
+                // c interval timeout healthy_threshold unhealthy_threshold expected_status (model seconds)
+                let c = a[0].n();
+                let cfg = sozu_command_lib::proto::command::HealthCheckConfig {
+                    uri: "/health".to_owned(),
+                    interval: (a[1].n() as u64 * SCALE) as u32,
+                    timeout: (a[2].n() as u64 * SCALE) as u32,
+                    healthy_threshold: a[3].n() as u32,
+                    unhealthy_threshold: a[4].n() as u32,
+                    expected_status: a[5].n() as u32,
+                };
+                // the jitter the checker adds to the interval (its own formula): never 0, always below one model second
+                {
+                    use std::hash::{Hash, Hasher};
+                    let mut h = std::collections::hash_map::DefaultHasher::new();
+                    cluster_of(c).hash(&mut h);
+                    let interval_ms = cfg.interval as u64 * 1000;
+                    let j = h.finish() % (interval_ms / 5).max(1);
+                    if j == 0 || j >= SCALE * 1000 {
+                        out.note("invalid-case: the checker's interval jitter is not inside (0, 1 model second)");
+                    }
+                }
+                if st.hc.is_none() {
+                    st.hc = Some(Hc {
+                        checker: sozu_lib::health_check::HealthChecker::new(),
+                        poll: mio::Poll::new().unwrap(),
+                        seen: Default::default(),
+                        now: 0,
+                        timeout: [0; 2],
+                    });
+                }
+                st.hc.as_mut().unwrap().timeout[c as usize] = a[2].n() as u64;
+                st.map.set_health_check_config(&cluster_of(c), Some(cfg));
+                out.obs(&[]);
+            }
+            "hc_remove" => {
+                // what Server::remove_health_check_state + SetHealthCheck(None) do
+                let c = a[0].n();
+                if let Some(hc) = st.hc.as_mut() {
+                    hc.checker.remove_cluster(&cluster_of(c));
+                    hc.seen.retain(|k, _| k.0 != cluster_of(c));
+                }
+                st.map.set_health_check_config(&cluster_of(c), None);
+                out.obs(&[]);
+            }
+            "pump" => {
+                // run the event loop (mio poll, ready(), HealthChecker::poll) until every probe whose backend
+                // answers (or refuses) has its verdict; probes towards silent backends stay in flight
+                let mut o = vec![];
+                if let Some(mut hc) = st.hc.take() {
+                    let rc = Rc::new(RefCell::new(std::mem::take(&mut st.map)));
+                    let mut events = mio::Events::with_capacity(64);
+                    let t0 = std::time::Instant::now();
+                    let mut calm = 0;
+                    let mut inflight = vec![];
+                    while t0.elapsed() < Duration::from_secs(5) {
+                        let _ = hc.poll.poll(&mut events, Some(Duration::from_millis(3)));
+                        for ev in events.iter() {
+                            if hc.checker.owns_token(ev.token()) {
+                                hc.checker.ready(ev.token());
+                            }
+                        }
+                        hc.checker.poll(&rc, hc.poll.registry());
+                        inflight = hc.checker.verif_in_flight();
+                        for (c, b, ad) in &inflight {
+                            let ai = addr_index(ad);
+                            let kind = if (10..=14).contains(&ai) { servers()[(ai - 10) as usize].kind.load(std::sync::atomic::Ordering::SeqCst) } else { K_CLOSE };
+                            let ci = idx_of(c) as usize;
+                            hc.seen.entry((c.clone(), b.clone(), *ad)).or_insert((kind, hc.now, hc.timeout[ci.min(1)]));
+                        }
+                        let present: std::collections::HashSet<(String, String, SocketAddr)> = inflight.iter().map(|(c, b, ad)| (c.clone(), b.clone(), *ad)).collect();
+                        hc.seen.retain(|k, _| present.contains(k));
+                        let waiting = inflight.iter().any(|(c, b, ad)| {
+                            let (k, t, to) = hc.seen[&(c.clone(), b.clone(), *ad)];
+                            !(k == K_HANG || k == K_SLOW) || hc.now - t >= to
+                        });
+                        if waiting {
+                            calm = 0;
+                        } else {
+                            calm += 1;
+                            if calm >= 4 {
+                                break;
+                            }
+                        }
+                    }
+                    // the property: every started probe ends — with the backend's answer, its refusal, or the
+                    // timeout, whatever the backend does — and a backend has at most one probe in flight
+                    for (c, b, ad) in &inflight {
+                        let (k, t, to) = hc.seen[&(c.clone(), b.clone(), *ad)];
+                        if hc.now - t >= to {
+                            out.viol("probe-not-terminated", &format!("the probe of {b} in {c} started {} model seconds ago (timeout {to}) and is still in flight", hc.now - t));
+                        } else if !(k == K_HANG || k == K_SLOW) {
+                            out.viol("probe-not-terminated", &format!("the probe of {b} in {c} got its answer (or a refusal) and is still in flight after 5 s"));
+                        }
+                    }
+                    let mut keys: Vec<(String, String, SocketAddr)> = inflight.iter().map(|(c, b, ad)| (c.clone(), b.clone(), *ad)).collect();
+                    keys.sort();
+                    if keys.windows(2).any(|w| w[0] == w[1]) {
+                        out.viol("two-probes-in-flight", "a backend has two probes in flight");
+                    }
+                    let mut tri: Vec<(i128, i128, i128)> = inflight.iter().map(|(c, b, ad)| (idx_of(c), idx_of(b), addr_index(ad))).collect();
+                    tri.sort();
+                    o.push(tn(tri.len()));
+                    for (c, b, ad) in tri {
+                        o.push(tn(c));
+                        o.push(tn(b));
+                        o.push(tn(ad));
+                    }
+                    st.map = Rc::try_unwrap(rc).ok().expect("the checker keeps no reference to the map").into_inner();
+                    st.hc = Some(hc);
+                }
+                out.obs(&o);
             }
             "inc" => {
                 let h = a[0].n() as usize;
